@@ -99,8 +99,11 @@ def conservation(sess, ops, mh):
     ext = model.ExternalSector
     for cz in model.CurrencyZoneList:
         cur = cz.Currency
-        if ext is not None and cz is ext.CurrencyZone:
-            continue
+        if ext is not None and cz is ext.CurrencyZone and not any(s_.HasF for s_ in cz.GetSectors()):
+            continue      # the external sector's own zone holds no financial assets unless the program put a sector there
+        if ext is not None and cz is ext.CurrencyZone and \
+                any(op['op'] in ('GoldStandardGovernment', 'GoldStandardCentralBank', 'SetGoldPurchases') for op in ops):
+            continue      # gold is bought from outside the model: the numeraire position is open by design
         fs = []
         for s in cz.GetSectors():
             if s.HasF:
@@ -453,7 +456,9 @@ def fx(sess, ops, mh, d):
         if ok:
             out.append(Disc('C07', 'fx-value-not-conserved', 'fx-value-not-conserved', abs(tot), sc, k=k, residual=tot,
                             currencies=sorted(nets)))
-        if not has_gold and 'NUMERAIRE' in nets and nets['NUMERAIRE'][0] is not None:
+        numeraire_party = any(R.zone_of(d, a)[1] == 'NUMERAIRE' or R.zone_of(d, b_)[1] == 'NUMERAIRE'
+                              for (_m, a, b_, _v, _x, _y) in d.registered)
+        if not has_gold and not numeraire_party and 'NUMERAIRE' in nets and nets['NUMERAIRE'][0] is not None:
             v = nets['NUMERAIRE'][0][k]
             out.append(Disc('C07', 'numeraire-position-not-zero', 'numeraire-position-not-zero', abs(v), sc, k=k, value=v))
     # registered cross-zone flows: receiver credited sender's amount * XR_s / XR_r, checked through the
